@@ -245,7 +245,8 @@ def check(ctx):
                 c2 = CFG(target_fn) if target_fn is not fn else cfg
                 for n in c2.nodes():
                     st = c2.stmt[n]
-                    if c2.kind[n] == "stmt" and isinstance(st, ast.AugAssign) and dotted(st.target) == pos:
+                    if c2.kind[n] == "stmt" and ((isinstance(st, ast.AugAssign) and dotted(st.target) == pos) or
+                                                 (isinstance(st, ast.Assign) and any(dotted(t) == pos for t in st.targets))):
                         later = []
                         for m2 in c2.reachable(n):
                             if m2 == n:
@@ -261,8 +262,10 @@ def check(ctx):
                                    "the counter ahead of the file" % (c2.stmt[later[0]].lineno if later else "?"))
 
     _r2(ctx)
+    _append_order(ctx)
     _r3(ctx)
     _r5(ctx)
+    _first_write_flags(ctx)
     _r6(ctx)
 
 
@@ -292,14 +295,22 @@ def _r2(ctx):
         ps = [p for p in params(fn) if p != "self"]
         atom_chk = None
         cell_chk = None
+        cfg = CFG(fn)
+        defs = Defs(cfg)
         for n in walk_no_nested(fn):
             if isinstance(n, ast.Raise):
                 tests, handlers = _governing(mod, n, fn)
                 s = " && ".join(src(t) for t in tests)
+                nd = cfg.node_of.get(n)
+                if nd is not None:
+                    # resolve locals such as `in_file = name in self._handle.root`
+                    for t in tests:
+                        s += " && " + " ".join(sorted(deps(t, nd, defs)))
                 if ("n_atoms" in s) and ("shape[1]" in s or "n_atoms" in s.replace("self.n_atoms", "").replace("self._n_atoms", "")):
                     atom_chk = n
                 cs = CELL_STATE.get(key)
-                if cs and (cs in s or any(h in ("NoSuchNodeError", "KeyError", "AssertionError") for h in handlers)) and \
+                state_words = (cs, "self._handle", "_get_node") if cs else ()
+                if cs and (any(w in s for w in state_words) or any(h in ("NoSuchNodeError", "KeyError", "AssertionError") for h in handlers)) and \
                         (" is None" in s or " is not None" in s or handlers or "missing" in s):
                     cell_chk = n
         if need_atoms:
@@ -313,6 +324,82 @@ def _r2(ctx):
                        "adding or dropping the unit cell in a later write raises", "no check refuses adding/dropping unit cell information after the first write")
         if key == "dtr":
             ctx.holds("C19-R2", fn, rel, q, "cell/time presence", "dtr requires cell and times in every call (unconditional raise)")
+
+
+def _append_order(ctx):
+    """HDF5: the atom count is validated only by PyTables when `coordinates` is appended, so coordinates must be the first array that grows."""
+    rel, cls = F.rel_cls("h5")
+    fn = F.method(ctx, "h5", "write")
+    q = cls + ".write"
+    order = None
+    for n in walk_no_nested(fn):
+        if isinstance(n, ast.For) and isinstance(n.target, ast.Name) and n.target.id == "name":
+            it = n.iter
+            if isinstance(it, (ast.List, ast.Tuple)):
+                order = const(it)
+            elif isinstance(it, ast.Call) and call_name(it) == "sorted" and it.args:
+                base = it.args[0]
+                keys = None
+                if isinstance(base, ast.Dict):
+                    keys = [const(k) for k in base.keys]
+                elif isinstance(base, ast.Name):
+                    for a in walk_no_nested(fn):
+                        if isinstance(a, ast.Assign) and dotted(a.targets[0]) == base.id and isinstance(a.value, ast.Dict):
+                            keys = [const(k) for k in a.value.keys]
+                order = sorted(keys) if keys else None
+            elif isinstance(it, ast.Name) or (isinstance(it, ast.Call) and isinstance(it.func, ast.Attribute) and it.func.attr in ("items", "keys")):
+                nm = it.id if isinstance(it, ast.Name) else dotted(it.func.value)
+                for a in walk_no_nested(fn):
+                    if isinstance(a, ast.Assign) and dotted(a.targets[0]) == nm and isinstance(a.value, ast.Dict):
+                        order = [const(k) for k in a.value.keys]
+            break
+    if order is None:
+        ctx.undecided("C19-R2", fn, rel, q, "append order", "the order in which the arrays are appended could not be determined")
+        return
+    ctx.decide(order[:1] == ["coordinates"], "C19-R2", fn, rel, q, "coordinates is the first array appended", "order: %s" % order[:4],
+               "arrays are appended in the order %s: the atom count is only validated by PyTables when `coordinates` is appended, so a write with a "
+               "different number of atoms is refused after %s have already grown (ragged file)" % (order, order[:order.index("coordinates")] if "coordinates" in order else order))
+    # NetCDF: first deposit statement is the coordinates variable
+    rel, cls = F.rel_cls("nc")
+    fn = F.method(ctx, "nc", "write")
+    deposits = [n for n in walk_no_nested(fn) if isinstance(n, ast.Assign) and isinstance(n.targets[0], ast.Subscript) and "self._handle.variables[" in src(n.targets[0])]
+    first = src(deposits[0].targets[0]) if deposits else ""
+    ctx.decide("'coordinates'" in first, "C19-R2", deposits[0] if deposits else fn, rel, cls + ".write", "coordinates is the first variable deposited", "",
+               "the first variable written is `%s`; the atom dimension is validated only when coordinates are deposited" % first[:50])
+
+
+FIRST_WRITE = [("mdcrd", ("_w_has_box", "_n_atoms")), ("pdb", ("_header_written",)), ("h5", ("_needs_initialization",)), ("nc", ("_needs_initialization",)),
+               ("dcd", ("_needs_write_initialization",)), ("dtr", ("_needs_write_initialization",)), ("xtc", ("frame_counter",)), ("trr", ("frame_counter",))]
+
+
+def _first_write_flags(ctx):
+    """The state that write() tests to recognise the first call must be initialised to a constant by the constructor."""
+    for key, attrs in FIRST_WRITE:
+        rel, cls = F.rel_cls(key)
+        mod = ctx.py.mod(rel)
+        w = F.method(ctx, key, "write")
+        ctor = mod.functions.get(cls + ".__cinit__") or mod.functions.get(cls + ".__init__")
+        # the guard: first `if` of write() whose test reads one of the state attributes and whose true/false branch writes a header / fixes the schema
+        guard = None
+        for n in walk_no_nested(w):
+            if isinstance(n, ast.If):
+                used = [a for a in attrs if ("self." + a) in src(n.test)]
+                if used and any(isinstance(x, (ast.Assign, ast.Call)) for st in n.body for x in ast.walk(st)):
+                    guard = (n, used)
+                    break
+        q = cls + ".write"
+        if guard is None:
+            ctx.undecided("C19-R5", w, rel, q, "first-write guard", "no test of %s found in write()" % (attrs,))
+            continue
+        for a in guard[1]:
+            inits = [n for n in walk_no_nested(ctor) if isinstance(n, ast.Assign) and any(dotted(t) == "self." + a for t in n.targets)]
+            # h5: _needs_initialization is set in the constructor's mode branches
+            consts = [isinstance(n.value, ast.Constant) for n in inits]
+            cdef_default = mod.pyx is not None and not inits   # cdef attributes start at 0
+            ok = (bool(inits) and all(consts)) or cdef_default or any("len(" in src(n.value) for n in inits)
+            ctx.decide(ok, "C19-R5", inits[0] if inits else ctor, rel, q, "first-write state self.%s starts from a constant" % a, "",
+                       "write() recognises the first call by `%s`, but the constructor initialises self.%s from `%s`: when that value is supplied the "
+                       "header / schema initialisation is skipped" % (src(guard[0].test)[:50], a, src(inits[0].value) if inits else "?"))
 
 
 def _r3(ctx):
